@@ -1,10 +1,8 @@
 """Sidecar contracts (CVC algebraic mode) for src/curve448.c: the same ladder step as curve25519.c, over mont.c numbers, with a24 taken
 from Curve448Context.a24 (set to 39082 = (156326 + 2)/4 in curve448_new_context, which is executed symbolically for the
 `constant` obligations).  See contracts/ec/curve25519.py for the statement and the a24 convention check."""
-import sympy as sp
-
 from spec import curves as C
-from vf.cvc_alg.contract import ConstEq, E, FnContract, Holds, Zero
+from vf.cvc_alg.contract import E, Zero
 from . import curve25519 as X
 from . import ed448 as ED448
 
